@@ -53,6 +53,7 @@ type termPlan struct {
 	Shrink              bool   `json:"templates_shrink_in_later_cycles"`
 	SecondSignalMs      int    `json:"second_signal_after_ms"`
 	SinkStalls          bool   `json:"message_queue_sink_stops_reading_before_the_signal"`
+	Mirror              bool   `json:"ipfix_and_sflow_mirroring_enabled"`
 }
 
 type termWitness struct {
@@ -136,6 +137,23 @@ func runTermPlan(run *mon.Run, p termPlan, dir string, st *termStats) {
 		"ipfix-tpl-cache-file": filepath.Join(dir, "ipfix.templates"), "netflow9-tpl-cache-file": filepath.Join(dir, "nf9.templates"),
 		"ipfix-port": strconv.Itoa(ports["ipfix"]), "netflow9-port": strconv.Itoa(ports["nf9"]), "netflow5-port": strconv.Itoa(ports["nf5"]), "sflow-port": strconv.Itoa(ports["sflow"]),
 		"ipfix-workers": strconv.Itoa(p.Workers), "netflow9-workers": strconv.Itoa(p.Workers), "netflow5-workers": "2", "sflow-workers": "2",
+	}
+	if p.Mirror {
+		// a third-party collector that just listens: the mirror path is live while the collector shuts down
+		if ml, err := net.ListenUDP("udp4", &net.UDPAddr{IP: net.IPv4(127, 0, 0, 1)}); err == nil {
+			defer ml.Close()
+			go func() {
+				b := make([]byte, 70000)
+				for {
+					if _, _, err := ml.ReadFromUDP(b); err != nil {
+						return
+					}
+				}
+			}()
+			mp := strconv.Itoa(ml.LocalAddr().(*net.UDPAddr).Port)
+			conf["ipfix-mirror-addr"], conf["ipfix-mirror-port"] = "127.0.0.1", mp
+			conf["sflow-mirror-addr"], conf["sflow-mirror-port"] = "127.0.0.1", mp
+		}
 	}
 	writeConf(dir, conf, sink.port)
 	if p.Elements {
@@ -743,6 +761,7 @@ func termMain(args mon.Args) {
 			p.Workers = 1
 			p.Exporters = 300
 		}
+		p.Mirror = s.shape == "steady" || i%4 == 3 // traffic keeps arriving across the signal in these: with mirroring on
 		plans = append(plans, p)
 	}
 	// start-up under traffic (elements file installed, templates already in the cache file) and a read loop
@@ -825,7 +844,7 @@ func termMain(args mon.Args) {
 	if st.decodedAfterRestart == 0 && args.Replay == "" {
 		run.HarnessError("no acknowledged template was ever probed after a restart: the monitor observed nothing")
 	}
-	run.SetRule("the real vflow binary with private ports/pid/cache files and a TCP sink (rawSocket producer); exporters emulated from 127.x.y.z source addresses. Plans enumerate traffic shape {idle, steady, burst of template announcements from 1-500 exporters, flood with 1 worker} × signal time {after acknowledgement, mid-burst, during start-up} × {SIGTERM, SIGINT} × 2-4 stop/start cycles on the same files × elements file installed or not × restart under continuing traffic, plus plans in which every exporter re-announces a much smaller template in later cycles (the saved cache shrinks), plans in which the signal is repeated 50-700 ms into the shutdown, and plans in which the message-queue sink stops reading before the signal so that decoded messages are still queued behind a blocked producer; thorough adds the race-built binary and strace recvfrom delay injection (3 s) that stalls the read loop across the shutdown window. Oracles: exit status 0, no panic/fatal on stderr, exit within 10 s, both cache files complete JSON and loadable with every template whose data had been seen at the sink before the signal, and after the restart data sent WITHOUT templates for every such (exporter,template) is published and equals the stand-alone decode. distinct = plan descriptor")
+	run.SetRule("the real vflow binary with private ports/pid/cache files and a TCP sink (rawSocket producer); exporters emulated from 127.x.y.z source addresses. Plans enumerate traffic shape {idle, steady, burst of template announcements from 1-500 exporters, flood with 1 worker} × signal time {after acknowledgement, mid-burst, during start-up} × {SIGTERM, SIGINT} × 2-4 stop/start cycles on the same files × elements file installed or not × restart under continuing traffic × mirroring on in the plans whose traffic continues across the signal, plus plans in which every exporter re-announces a much smaller template in later cycles (the saved cache shrinks), plans in which the signal is repeated 50-700 ms into the shutdown, and plans in which the message-queue sink stops reading before the signal so that decoded messages are still queued behind a blocked producer; thorough adds the race-built binary and strace recvfrom delay injection (3 s) that stalls the read loop across the shutdown window. Oracles: exit status 0, no panic/fatal on stderr, exit within 10 s, both cache files complete JSON and loadable with every template whose data had been seen at the sink before the signal, and after the restart data sent WITHOUT templates for every such (exporter,template) is published and equals the stand-alone decode. distinct = plan descriptor")
 	run.Assume("'within a few seconds' = 10 s (the one wall-clock verdict: the property is about wall-clock time); signals are sent only after the collector has bound its sockets (a signal before signal.Notify kills any program)")
 	run.Assume("'acknowledged' = a data message using that template was already seen at the sink before the signal was sent")
 	run.Finish()
